@@ -906,6 +906,7 @@ AnyP::Uri::addRelativePath(const char *relUrl)
         path_.chop(0, lastSlashPos+1);
     }
     path_.append(relUrl, relUrlLength);
+    touch(); // absolute_ and absolutePath_ may hold text computed from the old path
 }
 
 int
